@@ -249,7 +249,12 @@ class C10:
                b"\x8a\x02\xff\x7f.", b"\x96\x03\x00\x00\x00\x00\x00\x00\x00abc.", b"\x80\x04\x95\x05\x00\x00\x00\x00\x00\x00\x00\x8c\x01a\x94.",
                b"cdecimal\nDecimal\n(S'1'\ntR.", b"(I1\nI2\ndp0\n.", b"Pabc\n.", b"K\x01Q.", b"L" + b"1" * 5000 + b"L\n.",
                b"S'" + b"x" * 4094 + b"'\n.", b"S'" + b"x" * 4095 + b"'\n.", b"S'" + b"x" * 4093 + b"'\n.", b"V" + b"y" * 9000 + b"\n.",
-               b"F1.5\n.", b"G" + b"\x3f\xf8" + b"\0" * 6 + b".", b"T\x03\x00\x00\x00abc.", b"X\x03\x00\x00\x00abc.", b"B\x03\x00\x00\x00abc."]
+               b"F1.5\n.", b"G" + b"\x3f\xf8" + b"\0" * 6 + b".", b"T\x03\x00\x00\x00abc.", b"X\x03\x00\x00\x00abc.", b"B\x03\x00\x00\x00abc.",
+               b"V" + b"\\u0100" * 900 + b"\n.", b"V" + b"z" * 4090 + b"\\U0001f600\\u20ac" * 3 + b"\n.",
+               b"S'" + b"\\'\\\"\\x41\\\\" * 500 + b"'\n.", b"S\"" + b"q" * 4092 + b"\\\"\\n" + b"\"\n.", b"V" + b"w" * 5000 + b"\r\n.",
+               b"I" + b"1" * 4095 + b"\n.", b"L" + b"2" * 4096 + b"L\n.", b"cmod\n" + b"n" * 5000 + b"\n.", b"P" + b"i" * 4097 + b"\n."]
+        import pickle
+        out += [pickle.dumps("\u20ac\u0100" * 800 + "\n\\", 0), pickle.dumps(["x" * 5000, "\u1234" * 700], 0)]
         out += own_corpus("C10")
         # encoder output (through the implementation itself)
         vals = []
@@ -285,8 +290,8 @@ class C10:
                     meta.append((cfg, data, None))
             else:
                 # long pickles: cuts near the ends of long lines and random ones
-                ks = set(range(1, 8)) | set(range(len(data) - 8, len(data)))
-                ks |= {4095, 4096, 4097, 4098, 8192, 8193} | {rng.randrange(1, len(data)) for _ in range(40)}
+                ks = set(range(1, 8)) | set(range(len(data) - 80, len(data))) | set(range(4090, 4112)) | set(range(8186, 8200))
+                ks |= {rng.randrange(1, len(data)) for _ in range(120)}
                 cfg = rng.choice(CFGS)
                 lines.append(f"dec {cfg} - {hexs(data)}")
                 meta.append((cfg, data, "full"))
@@ -469,15 +474,23 @@ class C11:
         pool += [b"(I1\n.", b"I2\nt.", b"(K\x01K\x02.", b"\x80\x03K\x01.", b"\x80\x05\x96\x01\x00\x00\x00\x00\x00\x00\x00a.",
                  b"c__builtin__\nbytearray\n(c_codecs\nencode\n(X\x01\x00\x00\x00aX\x06\x00\x00\x00latin1tRtR.",
                  b"\x80\x03cbuiltins\nbytearray\nC\x01a\x85R.", b"K\x01K\x02K\x03.", b"((((N.", b"]}(.",
-                 b"t.", b"a.", b"\x80\x09N.", b"K\x01", b"(l."] + own_corpus("C11")
+                 b"t.", b"a.", b"\x80\x09N.", b"K\x01", b"(l.", b".", b"(.", b"I1\n(.", b"((.", b"K\x01K\x02(.", b"]}(.", b"K\x07.",
+                 b".", b"(."] + own_corpus("C11")
         for _ in range(ctx.scale(300, 5000)):
             pool.append(P.ProgGen(rng, wellformed=rng.random() < 0.8, selfcontained=True, maxops=rng.choice([4, 10, 25]),
                                   persid=0).gen())
         lines, meta = [], []
         single = {}
+        # every ordered pair (and some triples) of short pickles that leave operands / a MARK behind, fail at their
+        # STOP, or reach below their own pushes: what one call leaves must never reach the next
+        small = [b".", b"(.", b"I1\n(.", b"((.", b"K\x01K\x02(.", b"]}(.", b"K\x07.", b"t.", b"a.", b"0.", b"2.", b"N.", b"(l.",
+                 b"\x85.", b"\x86.", b"s.", b"e.", b"u.", b"d.", b"K\x01K\x02.", b"\x80\x03N.", b"Q.", b"R.", b"\x94.", b"q\x00."]
+        streams = [[a, b] for a in small for b in small]
+        streams += [[rng.choice(small) for _ in range(3)] for _ in range(ctx.scale(300, 3000))]
         for _ in range(ctx.scale(1200, 25000)):
             k = rng.randint(1, 8)
-            ps = [rng.choice(pool) for _ in range(k)]
+            streams.append([rng.choice(pool) for _ in range(k)])
+        for ps in streams:
             cfg = rng.choice(CFGS)
             lines.append(f"decs {cfg} - {hexs(b''.join(ps))}")
             meta.append((cfg, ps))
@@ -488,9 +501,15 @@ class C11:
         sgo = C.run_sharded(C.run_go, slines)
         for key, a in zip(list(single), sgo):
             single[key] = a
+        # pickles whose error is raised at their STOP (everything before executed, all bytes consumed): the
+        # stream stays aligned after them. Detected by: the body followed by `N.` decodes alone, consuming all.
+        at_stop = {}
+        cand = [(cfg, p) for (cfg, p), a in single.items() if a == "ERR other" and p.endswith(b".")]
+        cgo = C.run_sharded(C.run_go, [f"dec {cfg} - {hexs(p[:-1] + b'N.')}" for cfg, p in cand])
+        for key, a in zip(cand, cgo):
+            at_stop[key] = a == f"OK N {len(key[1]) + 1}"
         for line, (cfg, ps), g, l in zip(lines, meta, go, lean):
             ctx.evaluations += 1
-            ctx.tie(line, g, l)
             if len(ps) >= 2:
                 ctx.nontrivial((cfg, tuple(ps)))
             ctx.count(f"stream-len:{len(ps)}")
@@ -508,6 +527,8 @@ class C11:
                     break
                 want.append(a)
                 if not a.startswith("OK "):
+                    if at_stop.get((cfg, p)):
+                        continue
                     break
                 if not a.endswith(f" {len(p)}"):
                     # the pickle alone does not consume all its bytes (junk after STOP): not self-contained input
@@ -522,6 +543,8 @@ class C11:
             ctx.count("element", len(want))
             if "TOOBIG" in g:
                 continue
+            got = got[:len(want)]      # beyond a mid-pickle error the stream is not aligned any more
+            ctx.tie(line, " | ".join(got), " | ".join(l.split(" | ")[:len(want)]))
             if got != want:
                 i = next((j for j in range(min(len(got), len(want))) if got[j] != want[j]), min(len(got), len(want)))
                 ctx.violate("a pickle in a stream did not decode as it does alone (or the stream did not end with io.EOF)",
@@ -557,6 +580,8 @@ class C14:
         from . import pyside
         ins = [b"S'" + b"x" * n + b"'\n." for n in (4090, 4093, 4094, 4095, 4096, 8190, 100000)]
         ins += [b"V" + b"y" * n + b"\n." for n in (4094, 4095, 4096, 4097, 8192)]
+        ins += [b"V" + b"w" * 5000 + b"\r\n.", b"S'" + b"x" * 4500 + b"\r'\n.", b"V" + b"\\u0100" * 900 + b"\n.", b"cmo\rd\nna" + b"m" * 4200 + b"\r\n.",
+                b"P" + b"i" * 4097 + b"\r\n."]
         ins += [b"L" + b"9" * 4200 + b"L\n.", b"I" + b"7" * 4100 + b"\n.", b"cmod" + b"m" * 5000 + b"\nname\n.",
                 b"T" + (5000).to_bytes(4, "little") + b"z" * 5000 + b".", b"\x8a\xff" + b"\x01" * 255 + b".",
                 b"K\x01.K\x02.K\x03.", b"S'" + b"x" * 5000, b"S'" + b"x" * 4096 + b"\n."]
@@ -597,18 +622,27 @@ class C14:
 
         def strip(ans):   # drop consumed counts
             return " | ".join(re.sub(r"^(OK .*) \d+$", r"\1", x) for x in ans.split(" | ") if not x.startswith("ALTERED"))
+
+        def upto_error(ans):
+            # after an error in the middle of a pickle model and implementation resume at different offsets
+            out = []
+            for x in ans.split(" | "):
+                out.append(x)
+                if x.startswith("ERR"):
+                    break
+            return " | ".join(out)
         for line, g, l in zip(flat, goflat, lean):
             ctx.evaluations += 1
-            ctx.tie(line, g, l)
+            ctx.tie(line, upto_error(g), upto_error(l))
         for line, (fi, cfg, s, data), g in zip(sched_lines, meta, go):
             ctx.evaluations += 1
             ctx.count("schedule:" + ("split1" if re.fullmatch(r"e?\d+,\d+", s) else s[:12]))
             ctx.nontrivial((cfg, s, data))
-            want_model = strip(lean[fi])
+            want_model = upto_error(strip(lean[fi]))
             want_impl = strip(goflat[fi])
             if "UNMODELLED" in want_model or "TOOBIG" in want_model or "TOOBIG" in g:
                 ctx.unmodelled += 1
-            elif g != want_model:
+            elif upto_error(g) != want_model:
                 ctx.disagree(line[:3000], g, want_model, "chunked implementation vs model on flat input")
             ctx.traces += 1
             if g != want_impl and "TOOBIG" not in g:
